@@ -778,7 +778,11 @@ func (s *Session) Observe(check bool) *Decoded {
 	s.T.Add(d.Event())
 	if !s.Opts.NoStatistics {
 		st := s.DB.Stats()
-		s.T.Add(Ev{"ev": "Stats", "freeN": st.FreePageN, "pendN": st.PendingPageN})
+		ts := st.TxStats
+		s.T.Add(Ev{"ev": "Stats", "freeN": st.FreePageN, "pendN": st.PendingPageN, "freeAlloc": st.FreeAlloc, "freelistInuse": st.FreelistInuse,
+			"txN": st.TxN, "openTxN": st.OpenTxN, "pageCount": ts.GetPageCount(), "pageAlloc": ts.GetPageAlloc(), "write": ts.GetWrite(),
+			"split": ts.GetSplit(), "spill": ts.GetSpill(), "rebalance": ts.GetRebalance(), "nodes": ts.GetNodeCount(), "deref": ts.GetNodeDeref(),
+			"cursors": ts.GetCursorCount()})
 	}
 	if check {
 		n := 0
